@@ -119,6 +119,12 @@ def main():
         print('   rule=%s at %s in %s: %s -- %s' % (o['rule'], o['where'], o['func'], o['instance'], o['why']))
     for e in errors:
         print('ENGINE-ERROR', e)
+    # thorough: checker self-validation for this property (evidence only; never decides the exit code)
+    if tier == 'thorough' and not a.facts:
+        try:
+            ctx.cache.setdefault('evidence_extra', {}).setdefault(pid, {})['mutation_matrix'] = mutation_matrix(pid, a.repo)
+        except Exception as e:
+            ctx.cache.setdefault('evidence_extra', {}).setdefault(pid, {})['mutation_matrix'] = {'error': repr(e)}
     wall = time.time() - t0
     if a.verbose:
         for o in obligations:
@@ -135,6 +141,33 @@ def main():
     print('%s: %d obligations, %d discharged, %d known findings, %d violations (%.1fs, tier=%s)' % (
         pid, len(obligations), sum(1 for o in obligations if o['ok']), len(kf), len(viol), wall, tier))
     return 1 if viol else 0
+
+
+def mutation_matrix(pid, repo):
+    """applies every mutant / seeded change that names this property to a scratch copy of the current tree and records whether the check fires"""
+    import importlib.util
+    spec = importlib.util.spec_from_file_location('mutants', os.path.join(ENGINE, 'mutants.py'))
+    mu = importlib.util.module_from_spec(spec)
+    spec.loader.exec_module(mu)
+    mu.REPO = repo
+    idx = mu.load_index()
+    sel = {}
+    for n, s in idx.items():
+        ex = [e for e in s.get('expect', []) if e[0] == pid]
+        if ex:
+            sel[n] = dict(s, expect=ex)
+    sdir = os.path.join(VERIF, 'seeded')
+    if os.path.isdir(sdir):
+        for n in sorted(os.listdir(sdir)):
+            mp = os.path.join(sdir, n, 'meta.json')
+            if os.path.exists(mp):
+                meta = json.load(open(mp))
+                if meta.get('property') == pid:
+                    sel['seeded/' + n] = {'expect': [[pid, '']], 'file': os.path.join('..', 'seeded', n, 'patch.diff'), 'kind': 'seeded change (independent sub-agent)'}
+    # a few behaviour-preserving edits: the check must stay silent on them
+    benign = {n: s for n, s in idx.items() if s.get('benign')}
+    res = mu.run_matrix(sel, benign, pid, jobs=8)
+    return res
 
 
 def write_evidence(pid, spec, tier, seed, ctx, obligations, viol, kf, counts, floors, wall, facts):
